@@ -646,6 +646,25 @@ theorem C11_witness_float_countdown :
     floatCountdown 1.0 0.1 50 = 11 ∧ stepsOf 1 1 1 10 = 10 ∧ floatCountdown 0.3 0.1 50 = 3 ∧ stepsOf 3 10 1 10 = 3 := by
   decide +kernel
 
+/-- the lookup of the pinned tree: `model.agents[receiver_id]` (position, not id) -/
+def positional (as : List Agent) (rid : Nat) : Option Nat := (as[rid]?).map (·.id)
+
+/-- kernel-checked witness of the repaired routing defect: after `delete_agent(1)` on ids 0..3 the positional
+lookup hands an event for id 2 to the agent with id 3 and finds nobody (IndexError) for the live id 3. -/
+theorem C11_witness_positional :
+    positional (run State.init [.create 0, .create 0, .create 0, .create 0, .delete [1]]).agents 2 = some 3 ∧
+    positional (run State.init [.create 0, .create 0, .create 0, .create 0, .delete [1]]).agents 3 = none ∧
+    hasId (run State.init [.create 0, .create 0, .create 0, .create 0, .delete [1]]).agents 3 = true := by decide
+
+/-- the re-queueing of the pinned tree: `model.events += delayed_events`, `delayed_events` in `pop()` order -/
+def requeuePinned (evs : List Ev) : List Ev := (evs.reverse.filter isDelayed).map dec
+
+/-- kernel-checked witness of the repaired order defect: one re-queue swaps two events sent in this order (odd
+number of re-queues ⇒ handled in swapped order), two re-queues restore it. -/
+theorem C11_witness_requeue_reversal :
+    (requeuePinned [⟨⟨0, 0, 0, 1⟩, 1⟩, ⟨⟨1, 0, 0, 1⟩, 1⟩]).map (·.msg.seq) = [1, 0] ∧
+    (requeuePinned (requeuePinned [⟨⟨0, 0, 0, 2⟩, 2⟩, ⟨⟨1, 0, 0, 2⟩, 2⟩])).map (·.msg.seq) = [0, 1] := by decide
+
 /-! ### Non-vacuity: a history with deletion, an absent receiver, delayed events and a broadcast -/
 
 def demo : State := run State.init
@@ -669,5 +688,7 @@ example : stepsOf 1 4 1 10 = 3 ∧ stepsOf 0 1 1 10 = 0 ∧ stepsOf 7 10 1 20 = 
 #print axioms C11_ids_unique
 #print axioms stepsOf_least
 #print axioms C11_witness_float_countdown
+#print axioms C11_witness_positional
+#print axioms C11_witness_requeue_reversal
 
 end Bptk.C11
